@@ -59,7 +59,7 @@ def gen_condition(t, r, kinds=None):
 
 
 def gen_action(t, r):
-    kind = r.choice(["fileinto", "fileinto-copy", "fileinto-create", "fileinto-flags", "redirect", "redirect-copy", "reject", "keep", "discard", "stop",
+    kind = r.choice(["fileinto", "fileinto-copy", "fileinto-create", "fileinto-flags", "fileinto-copy-create", "fileinto-copy-flags", "redirect", "redirect-copy", "reject", "keep", "discard", "stop",
                      "setflag", "addflag", "removeflag", "addflag-list", "vacation", "vacation-tags"])
     if kind == "fileinto":
         return ("fileinto", t.hole())
@@ -69,6 +69,10 @@ def gen_action(t, r):
         return ("fileinto", ":create", t.hole())
     if kind == "fileinto-flags":
         return ("fileinto", ":flags", t.hole(), t.hole())
+    if kind == "fileinto-copy-create":        # one command using two extensions
+        return ("fileinto", ":copy", ":create", t.hole())
+    if kind == "fileinto-copy-flags":
+        return ("fileinto", ":copy", ":flags", t.hole(), t.hole())
     if kind == "redirect":
         return ("redirect", t.hole())
     if kind == "redirect-copy":
@@ -105,6 +109,8 @@ def gen_filter(r, cond_kinds=None):
     """(template conditions, template actions, matchtype, number of holes)"""
     t = Template()
     conds = [gen_condition(t, r, cond_kinds) for _ in range(r.randint(1, 3))]
+    if r.random() < 0.12:
+        conds.append(r.choice(conds))        # a repeated condition (last = an earlier one)
     acts = [gen_action(t, r) for _ in range(r.randint(1, 3))]
     return conds, acts, r.choice(["anyof", "allof"]), t.n
 
